@@ -94,8 +94,7 @@ pub fn scenarios(cfg: &str) -> Vec<Vec<Ev>> {
                 v.push(e(CREATE, i, 1));
                 v.push(e(POLL, i, 0));
             }
-            v.push(e(RELEASE, 4, 0));
-            v.push(e(RELEASE, 3, 0));
+            v.push(e(RELEASE, 4, 0)); // one release that satisfies everybody (7 permits)
             for i in 0..8u8 {
                 v.push(e(POLL, i, 1));
             }
